@@ -2588,6 +2588,8 @@ class PrefixWrapper:
             self.name, subcls, prefix=self.prefix, orig_prefix=self.orig_prefix
         )
         wrapper._derived_from = self
+        # the derived wrapper clones the same attributes in turn (else a second .using() loses them)
+        wrapper._using_clone_attrs = self._using_clone_attrs
         for attr in self._using_clone_attrs:
             setattr(wrapper, attr, getattr(self, attr))
         return wrapper
